@@ -163,3 +163,23 @@ def copy_valuation(src_compiler, dst_compiler, sc) -> int:
                 write_leaf(dst_compiler, n, rd(n))
                 n_copied += 1
     return n_copied
+
+
+def repair_domains(compiler, sc, rng: np.random.Generator) -> int:
+    """After a gradient step a constrained raw leaf (probabilities, stddev, Log input) may have left
+    its domain; such leaves are overwritten in place with a fresh in-domain draw (this is itself a
+    legitimate in-place update of the history).  Returns the number of repaired leaves."""
+    n_rep = 0
+    rd = leaf_reader(compiler)
+    for c in pipeline_circuits(sc):
+        for n, d in leaf_domains(c).items():
+            if d == "any" or not compiler.state.has_compiled_parameter(n) or isinstance(n, P.ConstantParameter):
+                continue
+            v = rd(n)
+            bad = (not np.all(np.isfinite(v))) or (d in ("pos", "simplex") and np.any(v <= 1e-3)) or (d == "unit" and (np.any(v <= 0.01) or np.any(v >= 0.99)))
+            if d == "simplex" and not bad:
+                bad = not np.allclose(v.sum(axis=-1), 1.0, atol=1e-9)
+            if bad:
+                write_leaf(compiler, n, draw(rng, n.shape, d, "normal", "real"))
+                n_rep += 1
+    return n_rep
